@@ -42,16 +42,19 @@ def sensitive : Option TK → Bool
   | some .dot => true
   | _ => false
 
-/-- `is_tuple_expr`, ported literally: after `(`, scan for a comma at *parenthesis* depth 0 before the matching
-`)`.  Quirk kept: only parentheses are counted, so a comma inside square brackets counts too and `([a, b])`
-is parsed as a one-element tuple (observed on the real parser by the correspondence run). -/
+/-- `is_tuple_expr`, ported literally: after `(`, scan for a comma at bracket depth 0 before the matching `)`.
+Every kind of bracket nests (since /repo fix "a parenthesised expression is a tuple only for its own commas": before
+it only parentheses were counted and `([a, b])` was parsed as a one-element tuple); an unmatched `]` at depth 0 is
+skipped (`saturating_sub`).  Braces and lambda parameter bars are outside this token alphabet. -/
 def isTupleAux (ts : List TK) : Nat → Nat → Nat → Bool
   | 0, _, _ => false
   | f + 1, i, depth =>
     match ts[i]? with
     | none => false
     | some .lparen => isTupleAux ts f (i + 1) (depth + 1)
+    | some .lbrack => isTupleAux ts f (i + 1) (depth + 1)
     | some .rparen => if depth == 0 then false else isTupleAux ts f (i + 1) (depth - 1)
+    | some .rbrack => isTupleAux ts f (i + 1) (depth - 1)
     | some .comma => if depth == 0 then true else isTupleAux ts f (i + 1) depth
     | _ => isTupleAux ts f (i + 1) depth
 
